@@ -713,8 +713,10 @@ fault_done:
     }
     if (key == -3) vf::fail(PT(), "%s: std::out_of_range from an operation that adds no element", nm);
     else if (key >= 0) {
-      if (sz < kFixedCap || m.count(key)) vf::fail(PT(), "%s: std::out_of_range although the element fits (size %d of %d, key %s)", nm, sz, kFixedCap, m.count(key) ? "present" : "absent");
-      else if (seq_of(SS) != std::vector<int>(m.begin(), m.end())) vf::fail(PT(), "%s: the refused insertion changed the set", nm);
+      const bool hinted = op.k == HINT_C || op.k == HINT_M || op.k == EMPLACE_HINT || op.k == NODE_FROM_TEMP_HINT;
+      const char *tg = hinted ? "C03,C12" : PT();  // a hint must not change the outcome of the call
+      if (sz < kFixedCap || m.count(key)) vf::fail(tg, "%s: std::out_of_range although the element fits (size %d of %d, key %s)", nm, sz, kFixedCap, m.count(key) ? "present" : "absent");
+      else if (seq_of(SS) != std::vector<int>(m.begin(), m.end())) vf::fail(tg, "%s: the refused insertion changed the set", nm);
     }
   }
   if (faulted() || capfault()) fault_epilogue(w);
